@@ -12,9 +12,15 @@
 (*               arrays, the shapes and (a sample of) the cells            *)
 (* Clause names starting with "binding:" mean the recording is             *)
 (* inconsistent (machinery), not that the property fails.                  *)
+(* TLC wraps printed values wider than 80 columns and the harness reads    *)
+(* FAIL lines one line at a time, so a failing event is reported with one  *)
+(* short line per clause: <<"FAIL", id, {clause, tag}>> (tag = code path   *)
+(* of the call, or the product kind).                                      *)
 (***************************************************************************)
 EXTENDS Samples, TraceKit
 VARIABLE l
+
+ReportEach(e, fails, tag) == \A cl \in fails : PrintT(<<"FAIL", e.id, {cl, tag}>>)
 
 SumOfJson(s) == [n |-> s.n, first |-> s.first, last |-> s.last, gn |-> s.gn, gp |-> s.gp,
                  seen |-> RangeOf(s.seen), bad |-> {}]
@@ -29,19 +35,19 @@ RsEvent(e) ==
                \cup (IF inline /\ e.raised = "" THEN ChunkFails(f, e, c, s1) ELSE {})
       drift == /\ fails = {} /\ inline /\ e.raised = "" /\ Domain(f, e, c)
                /\ e.size <= 400 /\ ~SameAsGen(f, e, c, e.xs)
-  IN  /\ Report(e, fails)
+  IN  /\ ReportEach(e, fails, PathTag(f, e, c))
       /\ IF drift THEN Note(e, "drift") ELSE TRUE
 
 ChunkEvent(e) ==
   LET f == FmtOf(e.fmt)
       c == Ctx(f, e)
       s == ChunkSum(f, e, c, e.xs)
-  IN  /\ Report(e, ChunkFails(f, e, c, s))
+  IN  /\ ReportEach(e, ChunkFails(f, e, c, s), PathTag(f, e, c))
       /\ PrintT(<<"SUM", e.id, [s EXCEPT !.bad = {}]>>)
 
 Step(e) == CASE e.op = "rs" -> RsEvent(e)
              [] e.op = "chunk" -> ChunkEvent(e)
-             [] e.op = "prod" -> Report(e, ProdFails(e))
+             [] e.op = "prod" -> ReportEach(e, ProdFails(e), "prod")
 
 Init == l = 1
 Next == /\ l <= Len(Trace)
